@@ -22,6 +22,7 @@ sys.path.insert(0, TOOLS)
 from props import PROPS, VERUS_TRUST  # noqa: E402
 import verus_unit  # noqa: E402
 import kani_unit  # noqa: E402
+import mutants  # noqa: E402
 
 REPO = os.environ.get('VERIF_REPO', '/repo')
 REPLAY_DIR = os.path.join(VERIF, 'replays')
@@ -215,29 +216,46 @@ def decide(pid, tier, spec, seed, t0, workdir, ev_path):
 
     # bounded differential search on the real code (stand-in for the parts no contract reaches; also the
     # witness search for failed Verus obligations)
-    wit_args = spec.get('witness_thorough' if tier == 'thorough' else 'witness') or spec.get('witness')
+    wit_spec = spec.get('witness_thorough' if tier == 'thorough' else 'witness') or spec.get('witness')
+    wit_list = [] if not wit_spec else (wit_spec if isinstance(wit_spec[0], list) else [wit_spec])
     witness_info = None
     witness_file = None
-    if wit_args and replay_ok:
-        witness_file = os.path.join(REPLAY_DIR, f'{pid}.witness.txt')
-        if os.path.exists(witness_file):
-            os.remove(witness_file)
-        rc, out = run_witness(wit_args, witness_file, seed, [k['id'] for k in known if k.get('matcher')])
-        witness_info = dict(cmd='replay search ' + ' '.join(wit_args), exit=rc, summary=out.strip()[-600:])
+    if wit_list and not replay_ok:
+        undecided.append('replay tool does not build against the current tree: ' + replay_msg[-800:])
+    for wi, wit_args in enumerate(wit_list if replay_ok else []):
+        wfile = os.path.join(REPLAY_DIR, f'{pid}.witness{wi}.txt')
+        if os.path.exists(wfile):
+            os.remove(wfile)
+        rc, out = run_witness(wit_args, wfile, seed, [k['id'] for k in known if k.get('matcher')])
+        info = dict(cmd='replay search ' + ' '.join(wit_args), exit=rc, summary=out.strip()[-600:])
         for line in out.split('\n'):
             if line.startswith('stats-json:'):
                 try:
-                    witness_info['stats'] = json.loads(line[len('stats-json:'):])
+                    info['stats'] = json.loads(line[len('stats-json:'):])
                 except json.JSONDecodeError:
                     pass
+        if witness_info is None:
+            witness_info = info
+            witness_info['further'] = []
+        else:
+            witness_info['further'].append(info)
+            witness_info['summary'] += '\n' + info['summary']
         if rc == 3:
+            witness_file = wfile
             failures.append(dict(obligation=f'differential/{wit_args[0]}', unit='replay', error=dict(
                 fn=None, message='bounded differential search found a failing input on the real code',
-                rendered=out, tags=[], spans=[]), dep=None, witness=witness_file))
+                rendered=out, tags=[], spans=[]), dep=None, witness=wfile))
         elif rc != 0:
             undecided.append(f'witness search failed to run: {out[-500:]}')
-    elif wit_args and not replay_ok:
-        undecided.append('replay tool does not build against the current tree: ' + replay_msg[-800:])
+
+    # thorough tier: contract self-test (hand-seeded mutants on a scratch copy of /repo/src)
+    kill_matrix = []
+    if tier == 'thorough' and not undecided:
+        for u in units:
+            kill_matrix += mutants.run_unit_mutants(u, REPO)
+        for r in kill_matrix:
+            if not r['ok']:
+                log(f"WARNING: self-test: mutant {r['unit']}/{r['mutant']} expected {r['expect']}, got {r['verdict']}")
 
     # known findings
     violations, known_hits = [], []
@@ -327,6 +345,7 @@ def decide(pid, tier, spec, seed, t0, workdir, ev_path):
         units=[dict(unit=u, status=results[u].status, verified=results[u].verified, wall_s=round(results[u].wall_s, 1),
                     role=('dependency of ' + pid if u in dict(dep_units) else 'own')) for u in all_units],
         bounded_differential=witness_info,
+        mutant_self_test=kill_matrix,
         unverified=spec.get('unverified', []),
         failed_obligations=[f['obligation'] for f in failures],
         known_findings=known_ids_hit,
